@@ -26,7 +26,7 @@ class Spec:
 
 
 def build_state(ctx, pfx, N, terms=None, coeff_rows=None, atom_rows=2, pair_coeffs=True, extra=None, cell=None,
-                pos=None, elements=None, type_hi=None, fixed_width_extra=False):
+                pos=None, elements=None, type_hi=None, fixed_width_extra=False, labels=None):
     """an Atoms object with N atoms.  terms: kind->count; coeff_rows: kind->number of coefficient rows (0 = no table);
     extra: 'atom'/kind -> list of column labels.  Tables hold distinct tokens prefixed by pfx."""
     Atoms = ctx.ms.Atoms
@@ -56,7 +56,7 @@ def build_state(ctx, pfx, N, terms=None, coeff_rows=None, atom_rows=2, pair_coef
         a.groups = np.array(sp.groups, dtype=int)
     els = elements or [f"{pfx.upper()}e{j}" for j in range(T)]
     sp.tables['atom'] = dict(elements=list(els), masses=[10.0 * (j + 1) + (0.5 if pfx != 's' else 0.0) for j in range(T)],
-                             labels=[f"{pfx}L{j}" for j in range(T)],
+                             labels=list(labels) if labels else [f"{pfx}L{j}" for j in range(T)],
                              pair=[f"{pfx}pc{j} 1.0" for j in range(T)] if pair_coeffs else [])
     a.atom_type_elements = list(sp.tables['atom']['elements'])
     a.atom_type_masses = np.array(sp.tables['atom']['masses'])
